@@ -429,7 +429,9 @@ func vdCollect(p *reg.Pkg, sp reflect.Value, e *yang.Entry, path string, depth i
 				apply: func(g *treeGen) (func(), bool) {
 					nv := reflect.MakeSlice(fvv.Type(), 0, fvv.Len()+1)
 					nv = reflect.AppendSlice(nv, fvv)
-					nv = reflect.Append(nv, fvv.Index(0))
+					// an equal value in a cell of its own (wrapper-union members are pointers,
+					// binary members byte slices): duplicates are duplicates by value
+					nv = reflect.Append(nv, vdCloneElem(fvv.Index(0)))
 					return vdSetField(fvv, nv), true
 				}})
 			_, t := resolveType(ce)
@@ -896,4 +898,41 @@ func vdValidateStream(rng *rand.Rand, n int, tier string, out string) (*Summary,
 	sum.Extra = map[string]interface{}{"case_files": files, "repairs_present": fix.term()}
 	_ = math.MaxInt64
 	return sum, nil
+}
+
+// vdCloneElem returns a value equal to the leaf-list member v that shares no pointer or byte
+// array with it.
+func vdCloneElem(v reflect.Value) reflect.Value {
+	switch v.Kind() {
+	case reflect.Interface:
+		if v.IsNil() {
+			return v
+		}
+		out := reflect.New(v.Type()).Elem()
+		out.Set(vdCloneElem(v.Elem()))
+		return out
+	case reflect.Ptr:
+		if v.IsNil() {
+			return v
+		}
+		out := reflect.New(v.Type().Elem())
+		out.Elem().Set(vdCloneElem(v.Elem()))
+		return out
+	case reflect.Struct:
+		out := reflect.New(v.Type()).Elem()
+		for i := 0; i < v.NumField(); i++ {
+			if out.Field(i).CanSet() {
+				out.Field(i).Set(vdCloneElem(v.Field(i)))
+			}
+		}
+		return out
+	case reflect.Slice:
+		if v.IsNil() {
+			return v
+		}
+		out := reflect.MakeSlice(v.Type(), v.Len(), v.Len())
+		reflect.Copy(out, v)
+		return out
+	}
+	return v
 }
